@@ -1,6 +1,6 @@
 """C08 — arbitrary JSON names map to valid identifiers and exact wire names (provenance clauses)."""
 import re
-from lib import (norm_arm, walk, nodes, ends, src, psrc, outcome, contains_node, pat_top_variants, short, calls_in, block_last,
+from lib import (Canon, norm_arm, walk, nodes, ends, src, psrc, outcome, contains_node, pat_top_variants, short, calls_in, block_last,
                  strip_refs, guards, gtext, top_stmts, templates_in)
 import prov
 
@@ -19,7 +19,7 @@ EXPLANATION = (
 ASSUMPTIONS = ["heck's case conversion and unicode-ident's XID tables"]
 
 TABLED = {
-    "api:lifetime": "lifetime name is supplied by the API caller of parameter_ident_with_lifetime",
+    "api:Type<'a>::parameter_ident_with_lifetime#1": "lifetime name is supplied by the API caller of parameter_ident_with_lifetime",
     "settings:type_mod": "module path prefix comes from TypeSpaceSettings::with_type_mod (caller-supplied, not a JSON name)",
     "settings:patch.rename": "a patched type name is caller-supplied through TypeSpacePatch::with_rename (not a JSON name)",
 }
@@ -118,61 +118,86 @@ def run(facts, rep, tier):
     # Variant.ident_name assignment
     em = [h for h in c.user_fns() if h["fn"].endswith("TypeEntryEnum::from_metadata")]
     if rep.floor("C08.W1", "enum constructor", len(em), 1):
-        asg = [n for n, _ in nodes(em[0]["body"], "assign") if src(n["l"]).endswith(".ident_name")]
-        ok = len(asg) >= 2 and all(src(n["r"]) == "Some(ident_name)" for n in asg)
-        lets = [n for n, _ in nodes(em[0]["body"], "let") if n["pat"].get("k") == "bind" and n["pat"]["name"] == "ident_name"]
-        ok = ok and len(lets) >= 2 and all(src(n["init"]).startswith("sanitize(") and "Case::Pascal" in src(n["init"]) for n in lets)
-        rep.ob("C08.W1", "variant-ident-from-sanitiser", ok, "variant.ident_name = Some(sanitize(raw_name.., Pascal)) in both naming passes" if ok else "variant identifiers are not assigned from the sanitiser")
+        cne = Canon(c, em[0], 4)
+        asg = [cne.r(n) for n, _ in nodes(em[0]["body"], "assign") if n["l"].get("k") == "field" and n["l"]["name"] == "ident_name"]
+        ok = len(asg) >= 2 and all(re.fullmatch(r"(elem<\S*Vec<Variant>\.iter_mut\(\)>)\.ident_name = Some\(sanitize\(\1\.raw_name(\.replace\(.*\))?, Case::Pascal\)\)", a) for a in asg)
+        rep.ob("C08.W1", "variant-ident-from-sanitiser", ok, "variant.ident_name = Some(sanitize(raw_name.., Pascal)) in both naming passes" if ok else "variant identifiers are not assigned from the sanitiser: %s" % asg)
 
     # ------------------------------------------------------------ W2 sanitiser guard
     sz = [h for h in c.user_fns() if h["fn"].endswith("util::sanitize")]
     if rep.floor("C08.W2", "sanitize", len(sz), 1):
         tail = block_last(sz[0]["body"])
-        s = src(tail)
-        ok = tail.get("k") == "if" and "parse_str(&out).is_ok()" in src(tail["cond"]) and src(block_last(tail["then"])) == "out" and "format!(out)" in src(tail["else"])
-        tf = [facts.template_at(x["sp"]) for x, _ in walk(tail.get("else") or {}) if x.get("k") == "macro" and x["name"] == "format"]
-        ok = ok and bool(tf) and tf[0] and tf[0]["text"].startswith('"{}_"')
-        rep.ob("C08.W2", "keyword-guard", ok, "result is returned only if it parses as syn::Ident, otherwise `_` is appended" if ok else "sanitize does not end with the Ident-validity guard: %s" % s[:120], tail.get("sp"))
-        ms = [n for n, _ in nodes(sz[0]["body"], "match") if n.get("src") == "normal" and "chars().next()" in src(n["scrut"])]
+        ok = False
+        if tail.get("k") == "if" and tail.get("else") is not None:
+            cond = tail["cond"]
+            call = cond["recv"] if cond.get("k") == "mcall" and cond["name"] == "is_ok" else None
+            then_v = strip_refs(block_last(tail["then"]))
+            fm = [x for x, _ in walk(tail["else"]) if x.get("k") == "macro" and x["name"] == "format"]
+            tf = facts.template_at(fm[0]["sp"]) if fm else None
+            if call is not None and call.get("k") == "call" and call.get("fn", "").endswith("parse_str") and "Ident" in c.ty(call.get("ty")) and then_v.get("k") == "path" and then_v.get("res") == "local":
+                arg_local = [x["path"] for x, _ in walk(call["args"]) if x.get("k") == "path" and x.get("res") == "local"]
+                fm_local = [x["path"] for x, _ in walk(fm[0].get("args", [])) if x.get("k") == "path" and x.get("res") == "local"] if fm else []
+                ok = arg_local == [then_v["path"]] and fm_local == [then_v["path"]] and bool(tf) and tf["text"].startswith('"{}_"')
+        rep.ob("C08.W2", "keyword-guard", ok, "result is returned only if it parses as syn::Ident, otherwise `_` is appended" if ok else "sanitize does not end with the Ident-validity guard", tail.get("sp"))
+        ms = [n for n, _ in nodes(sz[0]["body"], "match") if n.get("src") == "normal" and n["scrut"].get("k") == "mcall" and n["scrut"]["name"] == "next" and n["scrut"]["recv"].get("k") == "mcall" and n["scrut"]["recv"]["name"] == "chars"]
         ok = False
         if ms:
-            arms = [norm_arm(a) for a in ms[0]["arms"]]
-            ok = any(a[0] == "None" and a[2] == "prefix" for a in arms) and any(a[0] == "Some($0)" and "is_xid_start($0)" in a[1] and a[2] == "out" for a in arms) and any(a[0] == "Some(_)" and "format!(prefix, out)" in a[2] for a in arms)
+            subj = strip_refs(ms[0]["scrut"]["recv"]["recv"])
+            sname = subj.get("path") if subj.get("k") == "path" else None
+            got = {}
+            for a in ms[0]["arms"]:
+                pk, g, b = norm_arm(a)
+                got[(pk, bool(a.get("guard")))] = (g, a)
+            none = got.get(("None", False))
+            good = got.get(("Some($0)", True))
+            bad = got.get(("Some(_)", False))
+            if none and good and bad and sname:
+                pref = strip_refs(block_last(none[1]["body"]))
+                okn = pref.get("k") == "path" and pref.get("res") == "local"
+                okg = "is_xid_start($0)" in good[0] and strip_refs(block_last(good[1]["body"])).get("path") == sname
+                fm = [x for x, _ in walk(bad[1]["body"]) if x.get("k") == "macro" and x["name"] == "format"]
+                tf = facts.template_at(fm[0]["sp"]) if fm else None
+                okb = bool(fm) and [x["path"] for x, _ in walk(fm[0].get("args", [])) if x.get("k") == "path" and x.get("res") == "local"] == [pref.get("path"), sname] and bool(tf) and tf["text"].startswith('"{}{}"')
+                ok = okn and okg and okb
         rep.ob("C08.W2", "start-character-guard", ok, "empty -> prefix; XID_Start first char -> unchanged; otherwise prefixed" if ok else "sanitize does not guard the first character")
-        rep.ob("C08.W2", "non-identifier-characters-replaced", "replace(|c| !is_xid_continue(c), \"-\")" in src(sz[0]["body"]), "non-XID_Continue characters become separators before case conversion")
+        reps_ = [n for n, _ in nodes(sz[0]["body"], "mcall") if n["name"] == "replace" and len(n.get("args", [])) == 2 and n["args"][0].get("k") == "closure" and src(n["args"][1]) == '"-"']
+        ok = False
+        if reps_:
+            clo = reps_[0]["args"][0]
+            pn = [x["name"] for p_ in clo["params"] for x, _ in walk(p_) if x.get("k") == "bind"]
+            b = block_last(clo["body"])
+            ok = b.get("k") == "un" and b.get("op") == "Not" and b["e"].get("k") == "call" and b["e"].get("fn", "").endswith("is_xid_continue") and [x.get("path") for x in b["e"]["args"]] == pn
+        rep.ob("C08.W2", "non-identifier-characters-replaced", ok, "non-XID_Continue characters become separators before case conversion")
 
     # ------------------------------------------------------------ D1 rename iff different, raw name
     rc = [x for x in c.user_fns() if x["fn"].endswith("util::recase")]
     if rep.floor("C08.D1", "recase", len(rc), 1):
-        s = src(rc[0]["body"])
-        ok = "let new = sanitize(input, case)" in s and "if (new Eq input) { None } else { Some(input.to_string()) }" in s
+        s = Canon(c, rc[0], 4).r(rc[0]["body"])
+        ok = s == "(sanitize($&str, $Case), if (sanitize($&str, $Case) Eq $&str) None else Some($&str.to_string()))"
         rep.ob("C08.D1", "property-rename-iff-differs", ok, "recase returns Some(raw input) exactly when the identifier differs")
-    ov = [h for h in c.user_fns() if h["fn"].endswith("enums::output_variant")]
+    ov = [h for h in c.user_fns() if any("rename" in (t_ or {}).get("text", "") for (_, _, t_) in templates_in(facts, c, h)) and c.fns[h["fn"]]["inputs"] and "Variant" in c.fns[h["fn"]]["inputs"][0]]
     if rep.floor("C08.D1", "variant emitter", len(ov), 1):
-        lets = {n["pat"]["name"]: n for n, _ in nodes(ov[0]["body"], "let") if n["pat"].get("k") == "bind"}
-        s = src(lets["serde"]["init"]) if "serde" in lets else ""
-        ok = s.startswith("(&variant.raw_name Ne ident_name).then(") and "let s = &variant.raw_name" in s
+        cnv = Canon(c, ov[0], 4)
+        from lib import cguards
+        rts = [(n, anc, t_) for (n, anc, t_) in templates_in(facts, c, ov[0]) if t_ and re.sub(r"\s+", "", t_["text"]).startswith("#[serde(rename=#")]
+        ok = False
+        if rts:
+            n, anc, t_ = rts[0]
+            cond = [g for g in cguards(cnv, anc, n) if g[0] == "adaptor" and g[1] == "then"]
+            ok = bool(cond) and bool(re.fullmatch(r"\(\S*Variant\.raw_name Ne \S*Variant\.ident_name\.unwrap\(\)\)", cond[0][2]))
         rep.ob("C08.D1", "variant-rename-iff-differs", ok, "#[serde(rename = raw_name)] iff raw_name != ident_name")
     # every `rename = #x` hole is a raw-name field
     n_r = 0
     for h in c.user_fns():
+        cnh = None
         for (n, anc, t) in templates_in(facts, c, h):
             if t and re.search(r"\brename\s*=\s*#", t["text"]):
                 n_r += 1
+                cnh = cnh or Canon(c, h, 4)
                 hole = [a for a in n.get("args", []) if a.get("hole")]
-                name = hole[0]["path"] if hole else "?"
-                # provenance of the hole: StructPropertyRename::Rename(s) binding, raw_name, or the enum/struct `rename` field (always None today)
-                okp = False
-                why = ""
-                for p, _ in walk(h):
-                    if p.get("k") == "tstruct" and p["path"].endswith("StructPropertyRename::Rename") and any(b.get("k") == "bind" and b["name"] == name for b in p["pats"]):
-                        okp, why = True, "bound by StructPropertyRename::Rename(%s)" % name
-                    if p.get("k") == "letx" and psrc(p["pat"]) == "Some(%s)" % name and src(p["init"]) == "rename":
-                        okp, why = True, "the entry's `rename` field (raw name when set)"
-                for ln, _ in nodes(h["body"], "let"):
-                    if ln["pat"].get("k") == "bind" and ln["pat"]["name"] == name and src(ln.get("init")) == "&variant.raw_name":
-                        okp, why = True, "= &variant.raw_name"
-                rep.ob("C08.D1", "rename-hole-is-raw:%s#%d" % (h["fn"], n_r), okp, "rename = #%s: %s" % (name, why) if okp else "rename = #%s is not the raw JSON name" % name, n.get("sp"))
+                pr = cnh.r(hole[0]) if hole else ""
+                okp = bool(re.search(r"(Variant\.raw_name|~Rename|~TypeEntry(Enum|Struct)\.rename~Some)$", pr))
+                rep.ob("C08.D1", "rename-hole-is-raw:%s#%d" % (h["fn"], n_r), okp, "rename = %s" % pr if okp else "rename = `%s` is not the raw JSON name" % pr, n.get("sp"))
     rep.floor("C08.D1", "rename templates", n_r, 4)
 
     check_distinct(facts, rep, "C08.D2")
@@ -203,14 +228,14 @@ def check_distinct(facts, rep, RULE):
         for i, st in enumerate(stmts):
             if any(x.get("k") == "call" and x.get("fn", "").endswith("TypeEntryDetails::Enum") for x, _ in walk(st)):
                 ctor_ix = i
-            if st.get("k") == "if" and "variants_unique(&variants)" in src(st["cond"]) and st["cond"].get("k") == "un":
+            if st.get("k") == "if" and st["cond"].get("k") == "un" and any(x.endswith("variants_unique") for x in calls_in(st["cond"])):
                 checks.append((i, st))
         ok = ctor_ix is not None and len(checks) >= 2 and all(i < ctor_ix for i, _ in checks)
         last_div = bool(checks) and any(x.get("k") == "macro" and x["name"] == "panic" for x, _ in walk(checks[-1][1]["then"]))
         rep.ob(RULE, "variants-distinct-before-commit", ok and last_div, "variants_unique is tested twice before the enum is built; the second failure aborts" if ok and last_div else "variant identifiers are not checked for distinctness before the enum is built", h.get("sp"))
         vu = [x for x in c.user_fns() if x["fn"].endswith("variants_unique")]
         if vu:
-            rep.ob(RULE, "variants-unique-compares-idents", "variant.ident_name.as_ref().unwrap()" in src(vu[0]["body"]) and "unique(" in src(vu[0]["body"]), "uniqueness is over the sanitised identifiers")
+            rep.ob(RULE, "variants-unique-compares-idents", Canon(c, vu[0], 4).r(vu[0]["body"]) == "unique($&[Variant].iter().map(|..| elem<$&[Variant].iter()>.ident_name.unwrap()))", "uniqueness is over the sanitised identifiers")
     sm = [h for h in c.user_fns() if h["fn"].endswith("TypeSpace::struct_members")]
     if rep.floor(RULE, "struct member converter", len(sm), 1):
         h = sm[0]
